@@ -1371,7 +1371,10 @@ fn gen_column_cases(rng: &mut Rng, out: &mut Vec<(String, String)>) {
         return;
     }
     let has_null = col.iter().any(|v| *v == V::N);
-    let base = format!("type:{} {}{}", ts, if has_null { "has-null " } else { "" }, if n > 1 { "nt" } else { "" });
+    let nn = col.iter().filter(|v| **v == V::N).count();
+    // which path of primitive_equal / fixed_binary_equal the pair takes (null density vs the 0.4 switch)
+    let path = if nn == 0 { "nulls:none" } else if 10 * nn >= 4 * n { "nulls:dense" } else { "nulls:sparse" };
+    let base = format!("type:{} {} {}{}", ts, path, if has_null { "has-null " } else { "" }, if n > 1 { "nt" } else { "" });
     // eq: a few same-column pairs and different-column pairs
     for _ in 0..3 {
         let (i, j) = (rng.usize(dumps.len()), rng.usize(dumps.len()));
